@@ -2252,11 +2252,12 @@ func lemmaForwardSession(raw *rawEnvelope) (e *Session, e3 *Session, accepted bo
 //@   loop 1 invariant c.state == SessionStateAuthenticating || c.state == SessionStateEstablished || c.state == SessionStateFailed
 //@   loop 1 invariant c.state == SessionStateFailed ==> !c.transport.connected
 //@   loop 1 invariant c.transport.connected ==> old(c.transport.connected)
-//@   loop 1 invariant c.state == SessionStateEstablished ==> c.transport.stage == 4
+//@   loop 1 invariant c.state == SessionStateEstablished ==> c.transport.stage == 4 && c.transport.nSentSes > 0
 //@   loop 1 invariant c.state == SessionStateEstablished ==> c.startRcv.fired
 //@   loop 1 invariant c.state != SessionStateEstablished ==> c.startRcv.fired == old(c.startRcv.fired)
 //@   oncall [C10] role:authenticate : policy(c)
 //@   ensures [C07] @failclosed result == nil && c.state != SessionStateEstablished ==> c.state == SessionStateFailed && !c.transport.connected
+//@   ensures [C14] @announcedwhenestablished result == nil && c.state == SessionStateEstablished ==> effStage(c.transport) == 4
 //@   ensures srvInv(c) && step(c.state) >= step(old(c.state))
 //@   ensures c.state == SessionStateEstablished ==> c.startRcv.fired
 //@   ensures c.state != SessionStateEstablished ==> c.startRcv.fired == old(c.startRcv.fired)
@@ -2272,6 +2273,7 @@ func lemmaForwardSession(raw *rawEnvelope) (e *Session, e3 *Session, accepted bo
 //@   loop 0 invariant 0 <= it_ && it_ <= len(rng_) && atloop(boxedComp(rng_, it_)) && len(negCompOpts) == it_ && subset(elems(negCompOpts), elems(rng_))
 //@   loop 1 invariant 0 <= it_ && it_ <= len(rng_) && atloop(boxedEnc(rng_, it_)) && len(negEncryptOpts) == it_ && subset(elems(negEncryptOpts), elems(rng_))
 //@   ensures [C14] @closedorestablished result == nil && c.state != SessionStateEstablished ==> !c.transport.connected
+//@   ensures [C14] @announcedwhenestablished result == nil && c.state == SessionStateEstablished ==> effStage(c.transport) == 4
 //@   ensures [C07] @failclosed result == nil && c.state != SessionStateEstablished && old(transportOK(c.channel)) ==> c.state == SessionStateFailed || !c.transport.connected
 //@   ensures srvInv(c) && step(c.state) >= step(old(c.state))
 //@   ensures c.state == SessionStateEstablished ==> c.startRcv.fired
@@ -2302,6 +2304,7 @@ func lemmaForwardSession(raw *rawEnvelope) (e *Session, e3 *Session, accepted bo
 
 //@ callback role established(sessionID, ch) () : field ServerConfig.Established, local established of (*Server).handleChannel
 //@   requires [C14] @onlyestablished ch != nil && ch.channel != nil && ch.state == SessionStateEstablished && sessionID == ch.sessionID
+//@   requires [C14] @announced ch.transport != nil && effStage(ch.transport) == 4  ## the established envelope was accepted by the transport: a handshake whose last write failed is not an established session
 //@   modifies estN, estID, estChan
 //@   ensures estN == old(estN) + 1 && estID == sessionID && estChan == ch
 
